@@ -1,13 +1,18 @@
 #!/bin/sh
 # MANIFEST.setup_cmd: build the Coq development needed by the registered checks (full .vo build).
-cd /verif || exit 2
-/venv/bin/python - <<'PY'
-import sys, json; sys.path.insert(0, '/verif/tools')
+here=$(cd "$(dirname "$0")/.." && pwd)
+cd "$here" || exit 2
+/venv/bin/python - "$here" <<'PY'
+import sys, json, time
+here = sys.argv[1]
+sys.path.insert(0, here + '/tools')
 import vlib
-targets = [f"Props/{c['property_id']}.vo" for c in json.load(open('/verif/MANIFEST.json'))['checks']]
+t0 = time.time()
+targets = [f"Props/{c['property_id']}.vo" for c in json.load(open(here + '/MANIFEST.json'))['checks']]
 with vlib.CoqLock():
     vlib.ensure_makefile()
-    rc, out = vlib.sh(["make", "-k", "-j16", "--no-print-directory"] + targets, 3300, cwd=vlib.COQ)
-print(out[-4000:])
+    rc, out = vlib.sh(["make", "-k", "-j16", "--no-print-directory"] + targets, 3000, cwd=vlib.COQ)
+print(out[-3000:])
+print("setup: %d targets, rc=%d, %.0f s" % (len(targets), rc, time.time() - t0))
 sys.exit(rc)
 PY
